@@ -359,6 +359,14 @@ func genRPlan(r *RNG, n int, o planOpts) *RPlan {
 		}
 		if r.Chance(0.3) {
 			k := 1 + r.Intn(2)
+			if r.Chance(0.3) {
+				// many scattered empty reads within one fill (never more than
+				// two in a row), together with small chunks
+				k = 16 + r.Intn(40)
+				if p.MaxChunk == 0 {
+					p.MaxChunk = 1 + r.Intn(16)
+				}
+			}
 			for i := 0; i < k; i++ {
 				p.Events = append(p.Events, REvent{At: r.Intn(n + 1), Kind: "zero", Rep: 1 + r.Intn(2), ID: 100 + i})
 			}
